@@ -239,6 +239,8 @@ def reassemble(decoded):
             c["next"].setdefault("s2c", d["ack"] if from_client else d["seq"])
             c["state"] = 3
         other = "s2c" if from_client else "c2s"
+        c["next"].setdefault(side, d["seq"])          # conversations that do not open with a handshake (already reported above)
+        c["next"].setdefault(other, d["ack"])
         if d["payload"]:
             if d["seq"] != c["next"][side]:
                 c["problems"].append("packet %d: seq %d, expected %d (gap or overlap)" % (i, d["seq"], c["next"][side]))
